@@ -54,6 +54,19 @@ PROGRESS_IDIOMS = ("for-loop over an iterator", "shrinking collection with empti
                    "buffered reader fill_buf/consume with empty exit", "parser/lexer cursor loop", "interactive read-eval loop")
 
 
+def _pop_false_exit(body):
+    """the loop climbs with PathBuf::pop() and leaves when pop() reports that there is no parent: the (possibly named) result
+    of pop() is tested and its false outcome diverges"""
+    locs = Locals(body)
+    pops = [y for y in walk_exprs(body) if y["k"] == "MCall" and y["m"] == "pop" and not y["args"] and "Path" in str(peel(y["recv"]).get("ty", "")) + str(y["recv"].get("ty", ""))]
+    if not pops:
+        return False
+    for xx, pos_b, neg_b in find_ifs(body, lambda c: any(p_ is peel(locs.chase(c), methods=False) or p_ is peel(c, methods=False) for p_ in pops)):
+        if neg_b is not None and diverges(neg_b):
+            return True
+    return False
+
+
 def other_loops(ctx):
     """every `loop`/`while` of the crate outside the parser matches a progress idiom"""
     n = 0
@@ -87,8 +100,7 @@ def other_loops(ctx):
                         any(c["k"] == "MCall" and c["m"] in ("pop_front", "pop", "pop_back") for c in walk_exprs(y["c"]["init"]))
                         for y in walk_exprs(x["body"])):
                 idiom = "`while let Some(..) = queue.pop*()`: shrinking queue, exit when it yields None"
-            elif "pop" in calls and any(y["k"] in ("Ret", "Break") for y in walk_exprs(x["body"])) and "PathBuf" in str([y.get("ty") for y in walk_exprs(x["body"]) if y["k"] == "MCall" and y["m"] == "pop"]) or \
-                    ("pop" in calls and "parent_found" in r):
+            elif "pop" in calls and _pop_false_exit(x["body"]):
                 idiom = "PathBuf::pop with false exit"
             elif "fill_buf" in calls and "consume" in calls:
                 idiom = "buffered reader with empty-buffer exit"
